@@ -950,7 +950,33 @@ def run_approx(ctx: Ctx):
                     j = int(err.argmax())
                     ctx.fail(case, f"approx: cumprod(left={left}) of {L} unit quaternions ({dtype}) is {float(err.max()) / u:.1f} u from the "
                                    f"sequential fold at position {j}; theorem cumops_approx allows {bound / u:.1f} u")
-                ctx.sample({"stream": "approx", "dtype": dtype, "L": L, "left": left, "observed_u": float(err.max()) / u,
+                # theorem cumops_rounded_vs_exact: hypothesis "computed product within u of the exact product" measured on the products
+                # of the sequential fold (exact rational arithmetic on the float operands, float64 only, L <= 33), and the observed
+                # distance of the real scan from the EXACT ordered product set against the theorem's bound (recorded, no verdict:
+                # the theorem idealises the computed product as a unit quaternion)
+                rnd = None
+                if dtype == "float64" and L <= 33:
+                    from fractions import Fraction as Fr
+                    def qmul(p_, q_):
+                        (x1, y1, z1, w1), (x2, y2, z2, w2) = p_, q_
+                        return (w1 * x2 + x1 * w2 + y1 * z2 - z1 * y2, w1 * y2 - x1 * z2 + y1 * w2 + z1 * x2,
+                                w1 * z2 + x1 * y2 - y1 * x2 + z1 * w2, w1 * w2 - x1 * x2 - y1 * y2 - z1 * z2)
+                    rows = [tuple(Fr(v) for v in r) for r in q.double().tolist()]
+                    wrows = [tuple(Fr(v) for v in r) for r in want.tensor().double().tolist()]
+                    yrows = [tuple(Fr(v) for v in r) for r in Y.tensor().double().tolist()]
+                    uhat, exact, dmax = 0.0, rows[0], 0.0
+                    for jj in range(1, L):
+                        step_exact = qmul(rows[jj], wrows[jj - 1]) if left else qmul(wrows[jj - 1], rows[jj])
+                        uhat = max(uhat, math.sqrt(float(sum((a_ - b_) ** 2 for a_, b_ in zip(step_exact, wrows[jj])))))
+                        exact = qmul(rows[jj], exact) if left else qmul(exact, rows[jj])
+                        dd = min(math.sqrt(float(sum((a_ - b_) ** 2 for a_, b_ in zip(exact, yrows[jj])))),
+                                 math.sqrt(float(sum((a_ + b_) ** 2 for a_, b_ in zip(exact, yrows[jj])))))
+                        dmax = max(dmax, dd)
+                    rounds = max(1, math.ceil(math.log2(L)))
+                    rnd = {"u_hat_over_eps": uhat / u, "scan_vs_exact_over_eps": dmax / u,
+                           "bound_with_u_hat_over_eps": (rounds * 2 * L * 6 * uhat + L * uhat) / u}
+                    ctx.count("approx.rounded_vs_exact")
+                ctx.sample({"stream": "approx", "dtype": dtype, "L": L, "left": left, "observed_u": float(err.max()) / u, "rounded_vs_exact": rnd,
                             "theorem_bound_u": bound / u, "assoc_u": float(assoc.max()) / u}, cap=12)
 
 
